@@ -51,7 +51,14 @@ def gen_cfg(rng):
         customs.append(c)
         toks += ['custom', c['name'], '#%x' % c['index'], '#%x' % (0 if c['type'] == 'varint' else 1), '#%x' % int(c['array'])]
 
+    # one file in four is DENSE: several layer mappings on the layers every frame has, at bit offsets and lengths that are
+    # not byte aligned, most of them into the byte-slice columns (addresses, next hops) -- several assembled extractions
+    # of one packet whose results must not share storage
+    dense = rng.random() < 0.25
+
     def dest():
+        if dense and rng.random() < 0.6:
+            return rng.choice(['src_addr', 'dst_addr', 'next_hop', 'bgp_next_hop', 'NextHop', 'BgpNextHop'])
         if rng.random() < 0.6:
             return rng.choice(customs)['name']
         j, g = rng.choice(COLS)
@@ -94,7 +101,7 @@ def gen_cfg(rng):
             if little:
                 y += ['      endianness: little']
             toks += ['nf', '#%x' % ver, '#%x' % int(penp), '#%x' % pen, '#%x' % fid, d, '#%x' % int(little)]
-    nl = rng.randrange(0, 7)
+    nl = rng.randrange(3, 9) if dense else rng.randrange(0, 7)
     np_ = rng.randrange(0, 3)
     if nl or np_:
         y += ['sflow:']
@@ -114,10 +121,10 @@ def gen_cfg(rng):
     if nl:
         y += ['  mapping:']
         for _ in range(nl):
-            key = rng.choice(LAYERS)
-            encap = rng.random() < 0.3
-            off = rng.choice([0, 8, 16, 48, 96, 128, rng.randrange(257)])
-            ln = rng.choice([8, 16, 32, 128, rng.randrange(1, 129)])
+            key = rng.choice(['ethernet', '2', 'ipv4', 'ipv6', 'ip', '3', 'udp', 'tcp', '4']) if dense else rng.choice(LAYERS)
+            encap = rng.random() < (0.1 if dense else 0.3)
+            off = rng.randrange(0, 120) if dense else rng.choice([0, 8, 16, 48, 96, 128, rng.randrange(257)])
+            ln = rng.choice([4, 12, 20, 31, 33, rng.randrange(1, 129)]) if dense else rng.choice([8, 16, 32, 128, rng.randrange(1, 129)])
             d = dest()
             little = rng.random() < 0.2
             y += ['    - layer: "%s"' % key, '      encap: %s' % ('true' if encap else 'false'), '      offset: %d' % off,
